@@ -84,7 +84,23 @@ def gen_circuit(rng, exhaustive=None):
         avail = [n[0] for n in nodes if n[1] not in ("bb_output", "bb_input")]
         for p in ins:
             nodes.append([f"{inst}.{p}", "bb_input", False, [rng.choice(avail)] if rng.random() < 0.8 else []])
+    # a gate legally named like the name the reader invents for the first two operands of a wider gate (assign style)
+    if rng.random() < 0.35:
+        wide = [n for n in nodes if n[1] in lib.MULTI and len(n[3]) >= 3 and all(not f.startswith("\\") and "." not in f for f in n[3])]
+        cand = [n for n in nodes if n[1] in lib.GATES and not n[0].startswith("\\")]
+        if wide and cand:
+            w = rng.choice(wide)
+            x, y = rng.sample(w[3], 2)
+            op = {"and": "and", "nand": "and", "or": "or", "nor": "or", "xor": "xor", "xnor": "xor"}[w[1]]
+            new = f"{op}_{x}_{y}"
+            t = rng.choice([c for c in cand if c is not w] or cand)
+            if new not in [n[0] for n in nodes] and t[0] not in (x, y):
+                old_name = t[0]
+                t[0] = new
+                for n in nodes:
+                    n[3] = sorted(new if f == old_name else f for f in n[3])
     used = {f for n in nodes for f in n[3]}
+    dead = rng.random() < 0.4          # dead logic: gates and blackbox output nets that nothing reads (lint-clean: `unloaded` is off)
     for n in nodes:
         if n[1] in ("bb_input", "bb_output"):
             continue
@@ -93,7 +109,7 @@ def gen_circuit(rng, exhaustive=None):
         elif n[1] in ("0", "1", "x"):
             n[2] = rng.random() < 0.3
         else:
-            n[2] = n[0] not in used or rng.random() < 0.25
+            n[2] = (n[0] not in used and not (dead and rng.random() < 0.5)) or rng.random() < 0.25
     if not any(n[2] for n in nodes):
         cand = [n for n in nodes if n[1] not in ("bb_input", "bb_output")]
         cand[-1][2] = True
@@ -247,6 +263,11 @@ def classify(case, obs):
         tags.append("blackbox")
     if any(b[0].startswith("\\") for b in d["bbs"]):
         tags.append("escaped-instance")
+    used = {f for n in d["nodes"] for f in n[3]}
+    if any(n[1] in lib.GATES and not n[2] and n[0] not in used for n in d["nodes"]):
+        tags.append("dead-logic")
+    if any(n[0].startswith(("and_", "or_", "xor_")) and n[0].count("_") == 2 and n[1] in lib.GATES for n in d["nodes"]):
+        tags.append("gate-named-like-invented")
     return sorted(set(tags))
 
 
